@@ -13,6 +13,18 @@ INT_BITS = {"u8": 8, "u16": 16, "u32": 32, "u64": 64, "u128": 128, "usize": 64,
 SIGNED = {"i8", "i16", "i32", "i64", "i128", "isize"}
 
 
+_CHAR_LIT = re.compile(r"'(?:\\(?:u\{[0-9a-fA-F]+\}|x[0-9a-fA-F]{2}|.)|[^\\'])'")
+
+
+def char_lit_end(s, i):
+    """if a char literal starts at s[i] return the index just past it, else None (lifetimes
+    such as `'a` are not char literals)"""
+    if s[i] != "'":
+        return None
+    m = _CHAR_LIT.match(s, i)
+    return m.end() if m else None
+
+
 class Place:
     __slots__ = ("local", "projs")
 
@@ -40,6 +52,11 @@ def split_top(s, sep=","):
         elif c == '"':
             in_str = True
             cur.append(c)
+        elif c == "'" and char_lit_end(s, i):
+            e = char_lit_end(s, i)
+            cur.append(s[i:e])
+            i = e
+            continue
         elif c in "([{":
             depth += 1
             cur.append(c)
@@ -79,6 +96,9 @@ def match_paren(s, i):
                 in_str = False
         elif c == '"':
             in_str = True
+        elif c == "'" and char_lit_end(s, j):
+            j = char_lit_end(s, j)
+            continue
         elif c == "(":
             depth += 1
         elif c == ")":
@@ -267,6 +287,9 @@ def strip_comment(line):
                 in_str = False
         elif c == '"':
             in_str = True
+        elif c == "'" and char_lit_end(line, i):
+            i = char_lit_end(line, i)
+            continue
         elif c == "/" and line[i + 1] == "/":
             return line[:i].rstrip(), line[i + 2:].strip()
         i += 1
@@ -315,23 +338,32 @@ def parse_terminator(text):
     if m:
         dest = parse_place(m.group(1))
         callpart = m.group(2)
-        # find the '(' that opens the argument list: the last top-level one
-        depth = 0
+        # find the '(' that opens the argument list: the one still open at the end of `callpart`
+        # (forward scan; string literals with escapes are skipped)
         open_idx = -1
+        stack = []
         in_str = False
-        for j in range(len(callpart) - 1, -1, -1):
+        j = 0
+        while j < len(callpart):
             c = callpart[j]
-            if c == '"':
-                in_str = not in_str
             if in_str:
+                if c == "\\":
+                    j += 1
+                elif c == '"':
+                    in_str = False
+            elif c == '"':
+                in_str = True
+            elif c == "'" and char_lit_end(callpart, j):
+                j = char_lit_end(callpart, j)
                 continue
-            if c == ")":
-                depth += 1
             elif c == "(":
-                if depth == 0:
-                    open_idx = j
-                    break
-                depth -= 1
+                stack.append(j)
+            elif c == ")":
+                if stack:
+                    stack.pop()
+            j += 1
+        if stack:
+            open_idx = stack[0]
         if dest is not None and open_idx >= 0:
             func = callpart[:open_idx].strip()
             args = [parse_operand(a) for a in split_top(callpart[open_idx + 1:])]
